@@ -39,14 +39,14 @@ MODES = ("ap", "ip", "spq")
 KEY_IP = "ip-resched-chain-back"
 
 
-def consts(mode, prios, dists, maxring, maxtasks, maxlen, keephist=True, ipback=False):
-    return {"Mode": mode, "Prios": set(prios), "Dists": set(dists), "MaxRing": maxring, "MaxTasks": maxtasks,
+def consts(modes, prios, dists, maxring, maxtasks, maxlen, keephist=True, ipback=False):
+    return {"Modes": set(modes), "Prios": set(prios), "Dists": set(dists), "MaxRing": maxring, "MaxTasks": maxtasks,
             "MaxLen": maxlen, "IpChainBack": ipback, "KeepHist": keephist}
 
 
 def to_line(h):
     out = []
-    for o in h:
+    for o in h["ops"]:
         if o["op"] == "S":
             out.append("S 0 %d %s" % (o["d"], ",".join(str(p) for p in o["ps"])))
         else:
@@ -54,122 +54,152 @@ def to_line(h):
     return ";".join(out)
 
 
-def trace_cfg(d, mode, level, ipback):
-    c = consts(mode, {0}, {0}, 1, 0, 0, keephist=False, ipback=ipback)
+def trace_cfg(d, level, ipback):
+    c = consts(MODES, {0}, {0}, 1, 0, 0, keephist=False, ipback=ipback)
     c["Level"] = level
-    return mcgen.write_mc(d, "tr_%s_%s_%d" % (mode, level, int(ipback)), "PriorityTrace", c, spec="TSpec",
+    return mcgen.write_mc(d, "tr_%s_%d" % (level, int(ipback)), "PriorityTrace", c, spec="TSpec",
                           invariants=("AcceptExit",))
 
 
 def run_harness(ctx, exe, mode, lines, tag):
+    """Replays the behaviours on the real module `mode`; returns one event list per behaviour (first event = Mode)."""
     hp = os.path.join(ctx.scratch, "beh_%s_%s.txt" % (mode, tag))
     with open(hp, "w") as f:
         for l in lines:
             f.write(l + "\n")
     tr = os.path.join(ctx.scratch, "trace_%s_%s.ndjson" % (mode, tag))
     rc, out, err = ctx.run_cmd([exe, "seq", "1", hp, tr], timeout=600, env={"PARSEC_MCA_mca_sched": mode})
-    if ("scheduler %s " % mode) not in err and rc == 0:
+    if rc == 0 and ("scheduler %s " % mode) not in err:
         raise tlc.TLCError("harness did not install scheduler %s: %s" % (mode, err[-300:]))
     exs = tracecheck.split_executions(tracecheck.read_ndjson(tr)) if os.path.exists(tr) else []
     if rc != 0:
         # the harness died inside the real code: the behaviour it was executing is the failing one
-        k = max(0, len(exs) - 1)
         if not exs:
             exs.append([])
+        k = len(exs) - 1
         exs[-1].append({"e": "Crash", "rc": str(rc), "behaviour": lines[k] if k < len(lines) else "", "stderr": err[-300:]})
-    return exs
+    return [[{"e": "Mode", "m": mode}] + e for e in exs]
+
+
+def quick_verdict(ctx, d, mod, cfg, executions):
+    """One TLC run over a batch, no search for the culprit: (accepted, first execution numbers collected by Level
+    "report", number of executions it reported)."""
+    p = os.path.join(ctx.scratch, "q-%s.ndjson" % mod)
+    evs = []
+    for k, e in enumerate(executions):
+        if k:
+            evs.append(tracecheck.RESET)
+        evs.extend(e)
+    tracecheck._write(evs, p)
+    v, r = tracecheck.validate_file(d, mod, cfg, p, timeout=900)
+    ctx.states += r.distinct
+    ctx.transitions += r.generated
+    ctx.extra["trace_tlc_runs"] = ctx.extra.get("trace_tlc_runs", 0) + 1
+    rej, nrej = set(), 0
+    for l in v.out.splitlines():
+        if l.startswith('"VERIF-REJECTS '):
+            o = json.loads(l[len('"VERIF-REJECTS '):-1].replace('\\"', '"'))
+            rej, nrej = set(o["first"]), o["n"]
+    os.unlink(p)
+    return v.accepted, rej, nrej
 
 
 def run(ctx):
     d = ctx.stage("Sched")
     exe = ctx.harness("sched_drive", ["harness/sched/sched_drive.c"])
     q = ctx.quick
-    behaviours = {}
-    n_bfs = {}
-    for mode in MODES:
-        dists = {0, 1, 2} if mode == "spq" else {0, 1}
-        # ---- 1. every operation sequence up to the bound; the transcription refines the property -------------
-        mt, ml, mr = (3, 5, 2) if q else ((4, 6, 2) if mode == "spq" else (4, 6, 3))
-        mod, cfg = mcgen.write_mc(d, "bfs_" + mode, "Priority", consts(mode, {0, 1, 2}, dists, mr, mt, ml),
-                                  invariants=("TypeOK", "ImplRefines", "ImplHolds", "Deterministic", "Emit"))
-        r = ctx.tlc_check(d, mod, cfg, must_cover=("Schedule", "Select"), workers=4, timeout=1500)
-        hs = [h for h in (tlc._parse_tla_string_list(l) for l in r.printed) if h]
-        if not hs:
-            raise tlc.TLCError("no behaviour printed by %s" % mod)
-        n_bfs[mode] = len(hs)
-        # larger state graph without the history variable (refinement only)
-        if not q:
-            mod, cfg = mcgen.write_mc(d, "graph_" + mode, "Priority",
-                                      consts(mode, {0, 1, 2}, dists, 3, 5, 0, keephist=False),
-                                      invariants=("TypeOK", "ImplRefines", "ImplHolds", "Deterministic"))
-            ctx.tlc_check(d, mod, cfg, must_cover=("Schedule", "Select"), workers=4, timeout=1500)
-        # ---- long random walks ---------------------------------------------------------------------------
-        depth, num = (30, 120) if q else (60, 1500)
-        mod, cfg = mcgen.write_mc(d, "sim_" + mode, "Priority",
-                                  consts(mode, {-2, 0, 1, 3}, {0, 1, 2, 3} if mode == "spq" else {0, 1}, 3, 3 * depth, depth),
-                                  spec="SimSpec", invariants=("ImplHolds", "Emit"))
-        walks = ctx.tlc_histories(d, mod, cfg, num, depth + 1, workers=4)
-        behaviours[mode] = hs + walks
-        ctx.extra.setdefault("behaviours", {})[mode] = {"bfs": len(hs), "simulated": len(walks)}
+    # ---- 1. every operation sequence up to the bound; the transcription refines the property -----------------
+    mt, ml, mr = (3, 5, 2) if q else (4, 6, 2)
+    mod, cfg = mcgen.write_mc(d, "bfs", "Priority", consts(MODES, {0, 1, 2}, {0, 1, 2}, mr, mt, ml),
+                              invariants=("TypeOK", "ImplRefines", "ImplHolds", "Deterministic", "Emit"))
+    r = ctx.tlc_check(d, mod, cfg, must_cover=("Schedule", "Select"), workers=4, timeout=2400)
+    hs = [h for h in (tlc._parse_tla_string_list(l) for l in r.printed) if h]
+    n_bfs = len(hs)
+    if not hs:
+        raise tlc.TLCError("no behaviour printed by %s" % mod)
+    if not q:
+        # larger state graph without the history variable (refinement only): 5 tasks, rings <= 3
+        mod, cfg = mcgen.write_mc(d, "graph", "Priority", consts(MODES, {0, 1, 2}, {0, 1, 2}, 3, 5, 0, keephist=False),
+                                  invariants=("TypeOK", "ImplRefines", "ImplHolds", "Deterministic"))
+        ctx.tlc_check(d, mod, cfg, must_cover=("Schedule", "Select"), workers=4, timeout=2400)
+    # long random walks
+    depth, num = (30, 200) if q else (60, 3000)
+    mod, cfg = mcgen.write_mc(d, "sim", "Priority", consts(MODES, {-2, 0, 1, 3}, {0, 1, 2, 3}, 3, 3 * depth, depth),
+                              spec="SimSpec", invariants=("ImplHolds", "Emit"))
+    hs += ctx.tlc_histories(d, mod, cfg, num, depth + 1, workers=4, timeout=1200)
     # sensitivity of the model + model-level reproduction of D9: ip appending re-scheduled rings at the back
-    mod, cfg = mcgen.write_mc(d, "ipback", "Priority", consts("ip", {0, 1, 2}, {0, 1}, 2, 3, 0, keephist=False, ipback=True),
+    mod, cfg = mcgen.write_mc(d, "ipback", "Priority", consts({"ip"}, {0, 1, 2}, {0, 1}, 2, 3, 0, keephist=False, ipback=True),
                               invariants=("TypeOK", "ImplRefines"))
     r = ctx.tlc_check(d, mod, cfg, expect_ok=False, workers=2)
     if r.violated != "ImplRefines":
         raise tlc.TLCError("sensitivity self-test: ip with chain_back on distance > 0 must violate ImplRefines, got %r" % r.violated)
     ctx.exhaustive = True
+    ctx.extra["behaviours_bfs"] = n_bfs
+    ctx.extra["behaviours_simulated"] = len(hs) - n_bfs
 
-    # ---- 2. replay on the real modules + trace validation -----------------------------------------------------
-    total = 0
+    # ---- 2. replay on the real modules ---------------------------------------------------------------------------
+    main, resched = [], []          # (line, mode, events); ip behaviours that re-schedule (distance > 0) apart: D9
     for mode in MODES:
-        hs = behaviours[mode]
-        lines = [to_line(h) for h in hs]
+        mine = [h for h in hs if h["m"] == mode]
+        lines = [to_line(h) for h in mine]
         exs = run_harness(ctx, exe, mode, lines, "all")
-        total += len(lines)
         if len(exs) != len(lines):
             raise tlc.TLCError("harness produced %d executions for %d behaviours (%s)" % (len(exs), len(lines), mode))
-        if mode == MODES[0]:
-            ctx.sample({"module": mode, "behaviour": lines[0], "events": exs[0]})
-        if mode == "spq":
-            ctx.sample({"module": mode, "behaviour": lines[-1][:400], "events": exs[-1][:12]})
-        # groups: for ip the behaviours that re-schedule with a distance > 0 are validated apart (defect class D9)
-        resched = [any(o["op"] == "S" and o["d"] > 0 for o in h) for h in hs]
-        groups = [("all", list(range(len(hs))))]
-        if mode == "ip":
-            groups = [("distance0", [i for i in range(len(hs)) if not resched[i]]),
-                      ("resched", [i for i in range(len(hs)) if resched[i]])]
-        for gname, idx in groups:
-            if not idx:
-                continue
-            gex = [exs[i] for i in idx]
-            # conformance with the transcription of the code (never a verdict)
-            variant = None
-            for ipback in ((True, False) if mode == "ip" else (False,)):
-                tmod, tcfg = trace_cfg(d, mode, "code", ipback)
-                cf = ctx.validate(d, tmod, tcfg, gex, batch=2000, timeout=900)
-                if not cf:
-                    variant = "chain_back" if ipback else "sorted"
-                    break
-            if mode == "ip" and gname == "resched":
-                ctx.extra["ip_code_variant"] = variant
-            if variant is None:
-                ctx.divergences += 1
-                ctx.sample({"divergence": {"module": mode, "group": gname, "detail": cf[0].describe()}}, limit=6)
-            # the verdict
-            tmod, tcfg = trace_cfg(d, mode, "prop", False)
-            fails = ctx.validate(d, tmod, tcfg, gex, batch=2000, timeout=900)
-            for f in fails:
-                i = idx[f.index]
-                what = ("%s: select did not return a task the property allows after `%s`: %s"
-                        % (mode, lines[i][:300], json.dumps(f.describe())[:600]))
-                rep = {"module": mode, "behaviour": lines[i], "events": f.execution, "detail": f.describe()}
-                known = (mode == "ip" and gname == "resched" and variant == "chain_back")
-                # every execution of this group behaves exactly as the transcription with chain_back, whose only
-                # difference to the refining variant is the treatment of distance > 0: the failure is D9
-                if ctx.violation(what, rep, key=KEY_IP if known else None) is False:
-                    ctx.sample({"known_finding": KEY_IP, "behaviour": lines[i][:200], "detail": f.describe()}, limit=6)
-    ctx.evaluations = total
-    ctx.extra["behaviours_bfs"] = n_bfs
+        for h, l, e in zip(mine, lines, exs):
+            apart = mode == "ip" and any(o["op"] == "S" and o["d"] > 0 for o in h["ops"])
+            (resched if apart else main).append((l, mode, e))
+        ctx.sample({"module": mode, "behaviour": lines[0], "events": exs[0]})
+    ctx.evaluations = len(main) + len(resched)
+    ctx.extra["ip_behaviours_with_distance"] = len(resched)
+
+    # ---- 3. trace validation -----------------------------------------------------------------------------------
+    def report(group, known):
+        tmod, tcfg = trace_cfg(d, "prop", False)
+        fails = ctx.validate(d, tmod, tcfg, [e for _, _, e in group], batch=100000, timeout=1200)
+        for f in fails:
+            l, mode, _ = group[f.index]
+            what = ("%s: select did not return a task the property allows, behaviour `%s`: %s"
+                    % (mode, l[:300], json.dumps(f.describe())[:600]))
+            if ctx.violation(what, {"module": mode, "behaviour": l, "events": f.execution, "detail": f.describe()},
+                             key=KEY_IP if known else None) is False:
+                ctx.sample({"known_finding": KEY_IP, "behaviour": l[:200], "detail": f.describe()}, limit=6)
+
+    # (a) everything except ip-with-distance: verdict + conformance with the transcription
+    report(main, False)
+    tmod, tcfg = trace_cfg(d, "code", True)
+    ok, _, _ = quick_verdict(ctx, d, tmod, tcfg, [e for _, _, e in main])
+    if not ok:
+        ctx.divergences += 1
+        ctx.sample({"divergence": "some ap/spq/ip(distance 0) execution differs from the transcription of the code"}, limit=6)
+    ctx.traces = len(main)
+    # (b) ip behaviours that re-schedule with a distance > 0
+    if resched:
+        gex = [e for _, _, e in resched]
+        variant = None
+        for ipback in (True, False):
+            tmod, tcfg = trace_cfg(d, "code", ipback)
+            ok, _, _ = quick_verdict(ctx, d, tmod, tcfg, gex)
+            if ok:
+                variant = "chain_back" if ipback else "sorted"
+                break
+        ctx.extra["ip_code_variant"] = variant
+        if variant is None:
+            ctx.divergences += 1
+            ctx.sample({"divergence": "ip executions with distance > 0 match neither transcription"}, limit=6)
+        tmod, tcfg = trace_cfg(d, "report", False)
+        ok, rej, nrej = quick_verdict(ctx, d, tmod, tcfg, gex)
+        ctx.traces += len(gex)
+        ctx.extra["ip_distance_executions_rejected"] = nrej if ok else "validation stopped"
+        if not ok:
+            report(resched, False)             # something else than a disallowed select: full search
+        elif rej:
+            # Every execution of this group behaves exactly as the transcription with chain_back (variant), whose
+            # only difference to the refining variant is the treatment of distance > 0: these rejections are D9.
+            # The first two are validated alone (verdict + longest explainable prefix); when the group does not
+            # follow that transcription every rejected execution is examined.
+            known = variant == "chain_back"
+            pick = sorted(rej)[:2] if known else sorted(rej)[:10]
+            report([resched[i - 1] for i in pick], known)
     ctx.assume("one execution stream, no concurrent scheduler activity (as the property states)")
     ctx.assume("spq: 'highest priority first' is read per smallest pending distance (the statement's distance clause)")
 
@@ -179,7 +209,7 @@ def replay(ctx, obj):
     exe = ctx.harness("sched_drive", ["harness/sched/sched_drive.c"])
     mode = obj["module"]
     exs = run_harness(ctx, exe, mode, [obj["behaviour"]], "replay")
-    tmod, tcfg = trace_cfg(d, mode, "prop", False)
+    tmod, tcfg = trace_cfg(d, "prop", False)
     for f in ctx.validate(d, tmod, tcfg, exs):
         ctx.violation("behaviour still rejected on the current tree: %s" % json.dumps(f.describe())[:800],
                       {"module": mode, "behaviour": obj["behaviour"], "events": f.execution})
